@@ -276,3 +276,15 @@ package annotations
 //@   at call GetPasswdSecretContent#1 assert read: $arg1 == authSecret.Source.Namespace && $arg2 == authSecret.Value && len($arg3) == 2 && $arg3[0].Context == convtypes.ResourceHABackend && $arg3[0].UniqueName == d.backend.ID && $arg3[1].Context == convtypes.ResourceHAUserlist && $arg3[1].UniqueName == listName
 //@   loop 1 invariant none: 0 <= $idx(1)
 //@ end
+
+// ---------------------------------------------------------------------------
+// C09 — the namespace handed to the cache as "the reader's namespace" is the
+// namespace of the resource that declared the annotation (empty for values of
+// the global config), never a namespace taken from the annotation's own value:
+// the cross-namespace gate compares the secret's namespace against it
+//@ func (*updater).buildBackendProtocol
+//@   props C09
+//@   assume-pre Mapper).Get
+//@   at call GetTLSSecretPath#1 assert reader-ns: $arg1 == (crt.Source != nil ? crt.Source.Namespace : "")
+//@   at call GetCASecretPath#1 assert reader-ns:  $arg1 == (ca.Source != nil ? ca.Source.Namespace : "")
+//@ end
